@@ -307,8 +307,7 @@ func c09Sched(c *vrep.Ctx) {
 	c.R.Rule = fmt.Sprintf("controlled scheduler on vinstr-instrumented v2 code (yield points at function entries and loop heads): %d threads each calling Match/MatchFrom on ONE shared classifier (two near-identical documents so that calls score the same document), inputs %v; every interleaving within %s bound %d; each call must return its solo result, the deep state hash must be unchanged, no panic; states = distinct (thread positions) signatures seen, transitions = scheduling decisions", nthreads, pick, c.Param("policy", "delay"), budget)
 	c.Bound("threads", nthreads)
 	c.Bound(c.Param("policy", "delay")+"_bound", budget)
-	cl := mk()
-	h0 := vStateHash(cl, false)
+	h0 := vStateHash(mk(), false)
 	yields := 0
 	// calibration: one free run of every input counts how often each yield site fires; only
 	// sites that fire at most maxsite times per call are scheduling points (drops leaf helpers
@@ -339,6 +338,9 @@ func c09Sched(c *vrep.Ctx) {
 		s := vsync.New(r, pol)
 		s.Horizon = 200000
 		s.YieldFilter = func(site string) bool { return keep[site] }
+		// a COLD classifier per execution: state that is built lazily on first use is built under
+		// the explored interleaving, not by an earlier execution
+		cl := mk()
 		got := make([]string, nthreads)
 		s.Main(func() {
 			var wg vsync.WaitGroup
@@ -380,9 +382,6 @@ func c09Sched(c *vrep.Ctx) {
 			if msg == "" && vStateHash(cl, false) != h0 {
 				msg = "classifier state changed by concurrent Match calls"
 			}
-		}
-		if msg != "" {
-			cl = mk() // do not let a corrupted instance poison later executions
 		}
 		r.Note = map[string]interface{}{"msg": msg, "switches": s.Switches, "steps": s.Steps, "enabled": s.MaxEnabled}
 	}
